@@ -83,6 +83,22 @@ func buildText(dc *context.DataContext, text string) *builder.RuleBuilder {
 	return rb
 }
 
+// buildTextPlain compiles without exploring map iteration orders (used where
+// saliences are assumed distinct, so that the order is unique anyway).
+func buildTextPlain(dc *context.DataContext, text string) *builder.RuleBuilder {
+	rb := builder.NewRuleBuilder(dc)
+	must(rb.BuildRuleFromString(text), "build")
+	return rb
+}
+
+func assumeDistinct(s []int64) {
+	for i := range s {
+		for j := i + 1; j < len(s); j++ {
+			vnd.Assume(s[i] != s[j])
+		}
+	}
+}
+
 func fixedSal(n int) []int64 {
 	s := make([]int64, n)
 	for i := range s {
@@ -147,7 +163,15 @@ func indexOf(xs []int, x int) int {
 
 // checkOneAtATime: the trace is s,e,s,e,... with e missing exactly for
 // failing rules; no rule starts twice.
-func checkOneAtATime(tr []string, n int, f []bool) {
+func checkOneAtATime(all []string, n int, f []bool) {
+	var tr []string
+	for _, e := range all {
+		for k := 0; k < n; k++ {
+			if e == sname(k) || e == ename(k) {
+				tr = append(tr, e)
+			}
+		}
+	}
 	pos := 0
 	seen := make([]bool, n)
 	for pos < len(tr) {
@@ -376,6 +400,145 @@ func checkResult(res map[string]interface{}, n int, base []int, g, q, h, f []boo
 }
 
 func allFalse(n int) []bool { return make([]bool, n) }
+
+// checkAsGiven: rules run one at a time in exactly the given order (indices
+// of the existing named rules), stopping at the first failure under
+// stop-on-error or after a rule that set the stop tag (t may be nil).
+func checkAsGiven(tr []string, n int, want []int, t, f []bool, b bool, err error) {
+	ord := startOrder(tr, n)
+	checkOneAtATime(tr, n, f)
+	vnd.Assert(len(ord) <= len(want), "no more rules than named")
+	for k := range ord {
+		if k < len(want) {
+			vnd.Assert(ord[k] == want[k], "rules run in the caller's order")
+		}
+	}
+	checkStops(ord, len(want), t, f, b, err)
+}
+
+// checkStops: the started prefix ord of a sequential run over total rules is
+// consistent with the error policy and the stop tag.
+func checkStops(ord []int, total int, t, f []bool, b bool, err error) {
+	if len(ord) == 0 {
+		vnd.Assert(total == 0, "at least one rule runs")
+		return
+	}
+	tag := func(i int) bool {
+		if t == nil {
+			return false
+		}
+		return t[i]
+	}
+	anyFail := false
+	for _, i := range ord {
+		anyFail = vnd.Or(anyFail, f[i])
+	}
+	vnd.Assert(vnd.Iff(err != nil, anyFail), "error iff an executed rule failed")
+	for k := 0; k+1 < len(ord); k++ {
+		vnd.Assert(!tag(ord[k]), "no rule starts after the stop tag was set")
+		vnd.Assert(vnd.Or(b, !f[ord[k]]), "stop-on-error stops at the first failure")
+	}
+	if len(ord) < total {
+		last := ord[len(ord)-1]
+		vnd.Assert(vnd.Or(tag(last), vnd.And(!b, f[last])), "rules are skipped only after the stop tag or a failure under stop-on-error")
+	}
+}
+
+// checkSortedTag: sort model over the candidates with a stop tag.
+func checkSortedTag(tr []string, n int, cand []bool, s []int64, t, f []bool, b bool, err error) {
+	ord := startOrder(tr, n)
+	checkOneAtATime(tr, n, f)
+	total := 0
+	for i := 0; i < n; i++ {
+		if cand[i] {
+			total++
+		}
+	}
+	for _, i := range ord {
+		vnd.Assert(cand[i], "only candidate rules run")
+	}
+	for k := 0; k+1 < len(ord); k++ {
+		vnd.Assert(s[ord[k]] >= s[ord[k+1]], "non-increasing salience order")
+	}
+	for _, i := range ord {
+		for j := 0; j < n; j++ {
+			if cand[j] && indexOf(ord, j) < 0 {
+				vnd.Assert(s[i] >= s[j], "skipped rules come later in priority order")
+			}
+		}
+	}
+	checkStops(ord, total, t, f, b, err)
+}
+
+// checkDAG: layers (indices of existing rules, each rule in at most one
+// layer, possibly repeated inside its layer) run as barriers; a failing layer
+// stops the rest.
+func checkDAG(n int, layers [][]int, f []bool, err error) {
+	stopped := false
+	anyFail := false
+	var prev []int
+	for _, layer := range layers {
+		occ := make([]int, n)
+		for _, i := range layer {
+			occ[i]++
+		}
+		ranAll, ranNone := true, true
+		for i := 0; i < n; i++ {
+			if occ[i] > 0 {
+				c := vnd.Count(sname(i))
+				if c != occ[i] {
+					ranAll = false
+				}
+				if c != 0 {
+					ranNone = false
+				}
+			}
+		}
+		if len(layer) > 0 {
+			vnd.Assert(vnd.Implies(vnd.Not(stopped), ranAll), "every rule of a layer runs once per occurrence while no earlier layer failed")
+			vnd.Assert(vnd.Implies(stopped, ranNone), "no layer starts after a failing layer")
+		}
+		if ranAll && len(layer) > 0 {
+			for _, i := range prev {
+				for _, j := range layer {
+					if vnd.Count(ename(i)) > 0 {
+						vnd.RequireOrder(ename(i), sname(j))
+					} else {
+						vnd.RequireOrder(sname(i), sname(j))
+					}
+				}
+			}
+			failHere := false
+			for _, i := range layer {
+				failHere = vnd.Or(failHere, f[i])
+			}
+			anyFail = vnd.Or(anyFail, vnd.And(vnd.Not(stopped), failHere))
+			stopped = vnd.Or(stopped, failHere)
+			prev = layer
+		}
+	}
+	vnd.RequireJoined("ret")
+	vnd.StopIfViolated()
+	vnd.Assert(vnd.Iff(err != nil, anyFail), "error iff a rule of a started layer failed")
+	for i := 0; i < n; i++ {
+		inDag := false
+		for _, layer := range layers {
+			if indexOf(layer, i) >= 0 {
+				inDag = true
+			}
+		}
+		if !inDag {
+			vnd.Assert(vnd.Count(sname(i)) == 0, "rules outside the DAG never run")
+		}
+	}
+}
+
+func nothingRan(n int, err error) {
+	vnd.Assert(err != nil, "the call fails")
+	for i := 0; i < n; i++ {
+		vnd.Assert(vnd.Count(sname(i)) == 0, "nothing runs")
+	}
+}
 
 func allTrue(n int) []bool {
 	c := make([]bool, n)
